@@ -509,4 +509,4 @@ mod tests {
 
 #[cfg(kani)]
 #[path = "/verif/kani/group.rs"]
-mod verif_kani;
+pub(crate) mod verif_kani;
